@@ -171,6 +171,10 @@ func init() {
 	intrinsics[hpkg+"vIteInt"] = func(in *Interp, fr *frame, call *ssa.CallCommon, args []Value) Value {
 		return in.Ctx.Ite(term(args[0]), term(args[1]), term(args[2]))
 	}
+	intrinsics[hpkg+"vRenderQuote"] = func(in *Interp, fr *frame, call *ssa.CallCommon, args []Value) Value {
+		in.renderQuote = term(args[0]).IsTrue()
+		return nil
+	}
 	intrinsics[hpkg+"vRenderText"] = func(in *Interp, fr *frame, call *ssa.CallCommon, args []Value) Value {
 		on := term(args[0]).IsTrue()
 		in.renderInts, in.renderJSON = on, on
@@ -340,6 +344,23 @@ func init() {
 			return in.sprintf("%v", s)
 		}
 		return Str{Opq: &Opaque{What: "fmt.Sprint of several operands"}}
+	}
+	intrinsics["fmt.Appendf"] = func(in *Interp, fr *frame, call *ssa.CallCommon, args []Value) Value {
+		in.noteModel("fmt.Appendf")
+		r := in.sprintf(in.mustConcStr(args[1], "format"), args[2].(Slice))
+		if r.Opq != nil {
+			in.unsupported("fmt.Appendf producing opaque text (%s)", r.Opq.What)
+		}
+		b := args[0].(Slice)
+		if b.JSON != nil {
+			in.unsupported("fmt.Appendf onto JSON text")
+		}
+		back := make([]Value, 0, b.Len+r.Len())
+		back = append(back, b.Back[:b.Len]...)
+		for _, t := range in.strBytes(r) {
+			back = append(back, t)
+		}
+		return Slice{Back: back, Len: len(back)}
 	}
 	intrinsics["fmt.Errorf"] = func(in *Interp, fr *frame, call *ssa.CallCommon, args []Value) Value {
 		in.noteModel("fmt.Errorf")
@@ -577,6 +598,9 @@ func (in *Interp) fmtVerb(verb byte, a Iface) Str {
 			if v.IsConc() {
 				return Str{S: strconv.Quote(v.S)}
 			}
+			if (in.renderJSON || in.renderQuote) && v.Opq == nil {
+				return in.goQuote(v)
+			}
 			return opq("quoted symbolic string", true)
 		}
 	case *sym.Term:
@@ -703,4 +727,49 @@ func (in *Interp) bytesAsStr(v Value) Str {
 	}
 	in.unsupported("bytesAsStr of %T", v)
 	return Str{}
+}
+
+// goQuote models strconv.Quote / fmt's %q on a string of symbolic ASCII bytes: the escape
+// class of every byte is decided (Go syntax: \a \b \f \n \r \t \v \\ \" \xNN).
+func (in *Interp) goQuote(s Str) Str {
+	c := in.Ctx
+	in.noteModel("Go string quoting (%q) of symbolic bytes (escape classes decided per byte, ASCII)")
+	lit := func(x string) []*sym.Term {
+		out := make([]*sym.Term, len(x))
+		for i := range out {
+			out[i] = c.BV(8, uint64(x[i]))
+		}
+		return out
+	}
+	out := lit("\"")
+	for i := 0; i < s.Len(); i++ {
+		b := in.strAt(s, i)
+		done := false
+		for _, e := range []struct {
+			ch  byte
+			enc string
+		}{{'"', "\\\""}, {'\\', "\\\\"}, {'\a', "\\a"}, {'\b', "\\b"}, {'\f', "\\f"}, {'\n', "\\n"}, {'\r', "\\r"}, {'\t', "\\t"}, {'\v', "\\v"}} {
+			if in.Path.Branch(c.Eq(b, c.BV(8, uint64(e.ch)))) {
+				out = append(out, lit(e.enc)...)
+				done = true
+				break
+			}
+		}
+		if done {
+			continue
+		}
+		if in.Path.Branch(c.Cmp(sym.OpUle, c.BV(8, 0x80), b)) {
+			in.unsupported("non-ASCII byte in a quoted string (outside the stated bound)")
+		}
+		if in.Path.Branch(c.Or(c.Cmp(sym.OpUlt, b, c.BV(8, 0x20)), c.Eq(b, c.BV(8, 0x7f)))) {
+			out = append(out, lit("\\x")...)
+			hex := func(n *sym.Term) *sym.Term {
+				return c.Ite(c.Cmp(sym.OpUlt, n, c.BV(8, 10)), c.Bin(sym.OpAdd, n, c.BV(8, '0')), c.Bin(sym.OpAdd, n, c.BV(8, 'a'-10)))
+			}
+			out = append(out, hex(c.Bin(sym.OpLShr, b, c.BV(8, 4))), hex(c.Bin(sym.OpBAnd, b, c.BV(8, 15))))
+			continue
+		}
+		out = append(out, b)
+	}
+	return in.mkStr(append(out, lit("\"")...))
 }
